@@ -66,6 +66,15 @@ def build(kind, shared=None, figdir=None):
                              "b": ["x"] * 10})
         return rtf.RTFDocument(df=wide, rtf_body=rtf.RTFBody(text_font_size=9 if kind == "font9" else 9.5, col_rel_width=[1, 1]),
                                rtf_column_header=[rtf.RTFColumnHeader(text=["A", "B"])], rtf_page=rtf.RTFPage(nrow=12))
+    if kind == "grouped_paged":
+        # group_by restored at page starts + page_by headings, several pages
+        d = pl.DataFrame({"p": ["P1"] * 3 + ["P2"] * 3, "g": ["A", "A", "A", "B", "B", "B"], "x": [str(i) for i in range(6)]})
+        return rtf.RTFDocument(df=d, rtf_body=rtf.RTFBody(page_by=["p"], group_by=["g"]), rtf_page=rtf.RTFPage(nrow=5))
+    if kind == "many_groups":
+        # another document with group_by data of its own and 40 distinct page_by headings
+        d = pl.DataFrame({"p": ["Heading number %d of the other document" % i for i in range(40)],
+                          "g": ["ZZZ%d" % (i // 2) for i in range(40)], "x": [str(i) for i in range(40)]})
+        return rtf.RTFDocument(df=d, rtf_body=rtf.RTFBody(page_by=["p"], group_by=["g"]), rtf_page=rtf.RTFPage(nrow=8))
     if kind == "failing":
         bad = pl.DataFrame({"g": ["A", "B", "A"], "x": ["1", "2", "3"]})
         return rtf.RTFDocument(df=bad, rtf_body=rtf.RTFBody(group_by=["g"], text_color="purple"))
